@@ -57,7 +57,10 @@ RULE = ("cases = configuration x activity schedules. configuration: {WSGI Server
         "request, HTTP/1.0 request to an application that never answers, non-persistent request for a response of 2*tcp_wmem_max+2 MiB "
         "whose reader stalls (small pinned receive buffer, never reads: every later send would-blocks), non-persistent request whose response the application streams for k*T (k in 2..8, a send every p "
         "tocks, p*tock < T) while the client only reads, with and without a WireLog on the servant, persistent HTTP/1.1 request (exempt after its "
-        "head), client closes}. A quarter of the cases (plus a fixed grid) REWIND the server in mid-run: server.wind() onto a second Tymist "
+        "head), client closes}. Schedule keepalive_then_close: a keep-alive request, 5-9 tymeouts of silence, then a non-persistent "
+        "request (Connection: close or HTTP/1.0) on the same connection that needs several service passes (body split, "
+        "head then body, body trickled byte-wise, multi-pass streaming app); from that head on clauses (a)/(b) apply again. "
+        "A quarter of the cases (plus a fixed grid) REWIND the server in mid-run: server.wind() onto a second Tymist "
         "whose tyme is 1000 or 7 tocks earlier, equal, or 7 or 1000 tocks later, with connections open; from then on "
         "the clauses use the new time base with the rewind moment as start of every open connection's idle window. "
         "Non-trivial = some connection reached an idle deadline or was observed active across "
@@ -83,6 +86,9 @@ REQUIRE = {
     "service_calls": 10000,
     "configs": 3,
     "stalled_reader_deadlines_judged": 60,
+    "np_after_keepalive_connections": 100,
+    "np_after_keepalive_window_evaluations": 300,
+    "np_after_keepalive_answered_then_closed": 60,
     "rewinds_done": 150,
     "connections_open_at_rewind": 150,
     "rewound_connections_deadline_judged": 60,
@@ -192,7 +198,10 @@ def _lat(b):
     return b.decode("latin-1")
 
 
-def _schedule(rng, kind, m, k=None):
+KA_VARIANTS = ["split_body", "head_then_body", "trickle", "http10", "stream"]
+
+
+def _schedule(rng, kind, m, k=None, variant=None, bare=False):
     """m = T / tock (may be x.5). Returns (events, persistent)"""
     ev = []
     mi = max(1, int(math.ceil(m)))
@@ -250,6 +259,35 @@ def _schedule(rng, kind, m, k=None):
         cut = rng.randint(1, len(REQ11KEEP) - 1)
         ev.append([s, "send", _lat(REQ11KEEP[:cut])])
         ev.append([s + rng.randint(0, mi + 1), "send", _lat(REQ11KEEP[cut:])])
+    elif kind == "keepalive_then_close":
+        # persistent phase: one keep-alive request, then q*T of silence (allowed: persistent connections are exempt);
+        # then a NON-persistent request on the same connection that takes several service passes (body in pieces /
+        # multi-pass application), every piece less than T after the previous one.  The client reads throughout.
+        variant = variant or rng.choice(KA_VARIANTS)
+        if bare and variant == "stream":
+            variant = "trickle"
+        q = k if k is not None else rng.randint(5, 9)
+        s0 = rng.randint(0, max(0, int(math.ceil(m)) - 1))
+        ev.append([s0, "send", _lat(REQ11KEEP)])
+        t = s0 + int(math.ceil(q * m))
+        g = rng.randint(1, max(1, int(math.ceil(m)) - 1))           # gap between pieces, g*tock < T
+        head = "POST /ok HTTP/1.1\r\nHost: localhost\r\nConnection: close\r\nContent-Length: 10\r\n\r\n"
+        if variant == "http10":
+            head = "POST /ok HTTP/1.0\r\nContent-Length: 10\r\n\r\n"
+        if variant in ("split_body", "http10"):
+            ev.append([t, "send", head + "01234"])
+            ev.append([t + g, "send", "56789"])
+        elif variant == "head_then_body":
+            ev.append([t, "send", head])
+            ev.append([t + g, "send", "0123456789"])
+        elif variant == "trickle":
+            ev.append([t, "send", head])
+            for j in range(10):
+                ev.append([t + (j + 1) * g, "send", "0123456789"[j]])
+        else:  # stream: the application needs many passes to answer
+            n = max(3, int(rng.randint(2, 4) * m))
+            ev.append([t, "send", "GET /stream?n=%d&p=1 HTTP/1.1\r\nHost: localhost\r\nConnection: close\r\n\r\n" % n])
+            ev.append([t + n + 2, "stream_end"])
     elif kind == "client_close":
         if rng.random() < 0.5:
             ev.append([0, "send", _lat(HEAD10[:5])])
@@ -260,7 +298,7 @@ def _schedule(rng, kind, m, k=None):
 
 
 KINDS = ["never", "never", "once", "burst", "periodic_lt", "periodic_lt", "periodic_eq", "periodic_gt", "dribble_body",
-         "complete10", "close11", "app_stall", "persistent", "client_close", "big_stall", "stream_read"]
+         "complete10", "close11", "app_stall", "persistent", "client_close", "big_stall", "stream_read", "keepalive_then_close"]
 
 
 REWINDS = [-1000, -7, 0, 7, 1000]      # new tymist's tyme - old tymist's tyme, in tocks
@@ -277,11 +315,20 @@ def _gen(rng, cfg=None, m=None, kinds=None, wl=None, k=None, rewind=None):
         kind = kinds[i] if kinds else rng.choice(KINDS)
         if cfg == "bare" and kind in ("app_stall", "big_stall", "stream_read"):
             kind = "never"
-        if kind == "stream_read" and m <= 1:
+        variant = None
+        if "/" in kind:
+            kind, variant = kind.split("/")
+        if kind in ("stream_read", "keepalive_then_close") and m <= 1:
             kind = "never"          # no period p with p*tock < T
         start = rng.randint(0, 3) if i else 0
-        ev = _schedule(rng, kind, m, k)
+        if kind == "keepalive_then_close":
+            variant = variant or rng.choice(KA_VARIANTS)
+            if cfg == "bare" and variant == "stream":
+                variant = "trickle"
+        ev = _schedule(rng, kind, m, k, variant, cfg == "bare")
         conns.append({"kind": kind, "start": start, "events": ev})
+        if variant:
+            conns[-1]["variant"] = variant
         for e in ev:
             last = max(last, start + e[0])
         nsend = max(nsend, sum(1 for e in ev if e[1] == "send"))
@@ -326,6 +373,16 @@ def cases(tier, seed, shard, nshards):
                         yield _gen(grid, cfg, m, ["stream_read"], wl, k)
                     else:
                         _gen(grid, cfg, m, ["stream_read"], wl, k)
+                    i += 1
+    # fixed grid 5: keep-alive request, several tymeouts of silence, then a non-persistent multi-pass request
+    for cfg in ("wsgi", "wsgi-tls", "bare"):
+        for m in (2, 4, 8):
+            for variant in KA_VARIANTS:
+                for q in (5, 8):
+                    if i % nshards == shard:
+                        yield _gen(grid, cfg, m, ["keepalive_then_close/" + variant], k=q)
+                    else:
+                        _gen(grid, cfg, m, ["keepalive_then_close/" + variant], k=q)
                     i += 1
     # fixed grid 4: server rewound onto an earlier / equal / later tymist while connections are open
     for cfg in ("wsgi", "wsgi-tls", "bare"):
@@ -380,6 +437,7 @@ class Conn:
         self.eof = False
         self.eof_polls = 0
         self.received = b""          # what a reading client got (stream_read)
+        self.np_from = None          # tyme at which a connection that was persistent sent a non-persistent head
         self.ev0 = 0                 # traffic events before the last rewind are on another time base: not used
         self.rewound = False
         self.active_windows = 0
@@ -520,9 +578,11 @@ class Run:
                 if idle_close and now - last > T:
                     ctx.count("idle_close_later_than_last_traffic_plus_T_obs")
             # (b) active connections are not closed as idle
-            if not c.persistent:
+            if not c.persistent or c.np_from is not None:
                 if gaps_ok:
                     ctx.count("active_window_evaluations")
+                    if c.np_from is not None:
+                        ctx.count("np_after_keepalive_window_evaluations")
                     if c.rewound:
                         ctx.count("rewound_active_window_evaluations")
                     c.active_windows += 1
@@ -532,7 +592,7 @@ class Run:
                                       f"although its last traffic was at {last} ({now - last} < T) and every earlier gap "
                                       f"was < T; accept/traffic tymes {tymes}", trace=self.trace[-20:])
             # (a) idle non-persistent connections are closed by the loosest deadline
-            if c.nonpersistent and not c.persistent:
+            if c.nonpersistent and (not c.persistent or c.np_from is not None):
                 D = c.a0 + (n_before + 1) * T
                 if now >= last + T and not closed_now and now < D:
                     ctx.count("tight_deadline_missed_obs")
@@ -666,6 +726,19 @@ class Run:
         c.sent += data
         if c.kind == "persistent" and b"\r\n\r\n" in c.sent:
             c.persistent = True
+        if c.kind == "keepalive_then_close":
+            heads = c.sent.count(b"\r\n\r\n")
+            if heads >= 1:
+                c.persistent = True            # tymeout hook (c) no longer applies
+            if heads >= 2 and c.np_from is None and c.entry is not None:
+                # from here on the connection is not persistent any more: clauses (a)/(b) apply again, measured from
+                # this moment (the persistent phase before it was exempt)
+                c.np_from = self.tymist.tyme
+                c.a0 = c.np_from
+                c.ev0 = len(c.entry.events)
+                c.deadline_seen = False
+                self.ctx.count("became_nonpersistent_after_keepalive")
+                self.trace.append(f"tyme {c.np_from}: conn {c.idx} sent a non-persistent head after a keep-alive phase")
 
     def run(self):
         ctx, case = self.ctx, self.case
@@ -694,7 +767,7 @@ class Run:
                                 ctx.count("client_closes")
             self.svc()
             for c in self.conns:
-                if c.kind == "stream_read" and c.sock is not None and not c.eof:
+                if c.kind in ("stream_read", "keepalive_then_close") and c.sock is not None and not c.eof:
                     self.read_all(c)
             self.tymist.tick()
         # a stalled-reader connection's deadline a0+(n+1)T depends on how many sends the kernel took before it
@@ -736,6 +809,14 @@ class Run:
             elif c.outcome != "idle-closed":
                 ctx.count("stream_incomplete_other_reason_obs")
                 self.trace.append(f"stream conn {c.idx}: got {got}/{want} parts outcome {c.outcome}")
+        for c in self.conns:
+            if c.kind == "keepalive_then_close" and c.np_from is not None:
+                ctx.count("np_after_keepalive_connections")
+                ctx.seen("np_after_keepalive_variants", [self.cfg, c.spec.get("variant")])
+                if c.received.count(b"HTTP/1.1 ") >= 2 and not c.entry.open:
+                    ctx.count("np_after_keepalive_answered_then_closed")
+                elif c.outcome != "idle-closed":
+                    ctx.count("np_after_keepalive_other_outcome_obs")
         nontrivial = False
         outcomes = []
         for c in self.conns:
